@@ -88,6 +88,32 @@ impl Conn {
         }
     }
 
+    /// Raw bytes: TCP -- written to the socket as they are; WebSocket -- one masked frame with the given
+    /// opcode (1 text, 2 binary, 9 ping, 0 continuation) and FIN flag carrying the bytes as payload.
+    pub fn send_raw(&mut self, opcode: u8, fin: bool, payload: &[u8]) -> Result<(), String> {
+        match self {
+            Conn::Tcp { s, .. } => s.write_all(payload).map_err(|e| e.to_string()),
+            Conn::Ws { s, .. } => {
+                let mut f = vec![(if fin { 0x80u8 } else { 0 }) | (opcode & 0x0f)];
+                let mask = [0x12u8, 0x34, 0x56, 0x78];
+                if payload.len() < 126 {
+                    f.push(0x80 | payload.len() as u8);
+                } else if payload.len() < 65536 {
+                    f.push(0x80 | 126);
+                    f.extend_from_slice(&(payload.len() as u16).to_be_bytes());
+                } else {
+                    f.push(0x80 | 127);
+                    f.extend_from_slice(&(payload.len() as u64).to_be_bytes());
+                }
+                f.extend_from_slice(&mask);
+                for (i, b) in payload.iter().enumerate() {
+                    f.push(b ^ mask[i % 4]);
+                }
+                s.write_all(&f).map_err(|e| e.to_string())
+            }
+        }
+    }
+
     fn fill(&mut self, wait: Duration) {
         let (s, buf) = match self {
             Conn::Tcp { s, buf } => (s, buf),
